@@ -256,3 +256,30 @@ def specs(tier, seed, carve):
                                 params={"init": "ready_outbound", "persistent": True, "depth": 4, "prefix": [f, g]}, timeout=3000,
                                 bound="every 4-event history starting with %s, %s from 'ready_outbound', persistent peer" % (EVENTS[f], EVENTS[g])))
     return out
+
+
+# ---------------------------------------------------------------------------------------------------------------------
+# wire-level histories with this property's monitor (harness/uni.py): bytes in, bytes out, reference model of the far ends
+from typing import List as _List  # noqa: E402
+from harness import uni as U  # noqa: E402
+
+
+def uni_history(ev: _List[int]) -> bool:
+    """
+    pre: len(ev) == P["depth"] and all(0 <= e < len(U.EVENTS) for e in ev)
+    pre: all(ev[i] == P["prefix"][i] for i in range(len(P["prefix"])))
+    post: _
+    """
+    return U.history_body(ev, P)
+
+
+_own_specs = specs
+
+
+def specs(tier, seed, carve):  # noqa: F811
+    return _own_specs(tier, seed, carve) + U.specs(PROPERTY, tier, seed)
+
+
+FUNCTIONS_ENCODED = list(FUNCTIONS_ENCODED) + U.FUNCTIONS
+BOUNDS = {k: v + "; " + U.BOUNDS[k] for k, v in BOUNDS.items()}
+OUTSIDE = list(OUTSIDE) + U.OUTSIDE
